@@ -193,9 +193,9 @@ def replay(path):
     elif w["kind"] == "ui" and "session" in w:
         bindir = core.build_apps()
         sess = w["session"]
-        steps = [tuple(x.encode("latin-1") if (st_[0] == "raw" and i == 1) else (tuple(x) if isinstance(x, list) and st_[0] == "resize" else x)
+        steps = [tuple(x.encode("latin-1") if (st_[0] in ("raw", "junk") and i == 1) else (tuple(x) if isinstance(x, list) and st_[0] == "resize" else x)
                        for i, x in enumerate(st_)) for st_ in sess["steps"]]
-        events = ui_checks.session(bindir, steps, "replay", size=tuple(sess["size"]), touch=sess["touch"], filter_time=sess["filter_time"])
+        events = ui_checks.session(bindir, steps, "replay", size=tuple(sess["size"]), touch=sess["touch"], filter_time=sess["filter_time"], options=sess.get("options", ()))
         verdicts, st, tr = core.validate_events("Trace_UI", events, "replay", shards=1, boundary=lambda e: e["ev"] == "session_start")
         for v in verdicts:
             for owner, field in v["pairs"]:
